@@ -4,6 +4,7 @@ package mon
 import (
 	_ "verifharness/mon/c01"
 	_ "verifharness/mon/c02"
+	_ "verifharness/mon/c03"
 	_ "verifharness/mon/c05"
 	_ "verifharness/mon/c06"
 	_ "verifharness/mon/c10"
